@@ -36,6 +36,9 @@ def handle (inp impl : Json) : Verdict :=
       why := s!"the runner died ({str (field impl "how")}: {str (field impl "detail")}): none of the {n} cases of the batch — nor of any other batch of the run — gets an outcome" } else
   if !(isNull (field impl "panic")) then
     { agree := false, holds := false, why := "panic: " ++ str (field impl "panic") } else
+  -- the process was not scheduled for seconds while the scenario ran (twice): set aside
+  if nat (field impl "frozenMs") > 0 then
+    { agree := true, holds := true, nontrivial := false, cls := "wire-set-aside" } else
   let sOut := stream inp "serverOut" "serverFill"
   let body : Option Bool := match str (field inp "serverBody") with
     | "plain" => some false | "empty" => some false | "cert" => some true | _ => none
